@@ -45,6 +45,10 @@ type checkRunner struct {
 	checkedRcptsLock     sync.Mutex
 	checkedBody          map[module.CheckState]struct{}
 
+	// Rejections returned by CheckRcpt, they are replayed if the client
+	// repeats the RCPT TO command for the same recipient.
+	rejectedRcpts map[module.CheckState]map[string]module.CheckResult
+
 	resolver      dns.Resolver
 	doDMARC       bool
 	didDMARCFetch bool
@@ -62,6 +66,7 @@ func newCheckRunner(msgMeta *module.MsgMetadata, log log.Logger, r dns.Resolver)
 		msgMeta:              msgMeta,
 		checkedRcptsPerCheck: map[module.CheckState]map[string]struct{}{},
 		checkedBody:          map[module.CheckState]struct{}{},
+		rejectedRcpts:        map[module.CheckState]map[string]module.CheckResult{},
 		log:                  log,
 		resolver:             r,
 		dmarcVerify:          dmarc.NewVerifier(r),
@@ -256,8 +261,10 @@ func (cr *checkRunner) checkRcpt(ctx context.Context, checks []module.Check, rcp
 	err = cr.runAndMergeResults(states, func(s module.CheckState) module.CheckResult {
 		cr.checkedRcptsLock.Lock()
 		if _, ok := cr.checkedRcptsPerCheck[s][rcptTo]; ok {
+			// Zero value unless the check rejected this recipient before.
+			res := cr.rejectedRcpts[s][rcptTo]
 			cr.checkedRcptsLock.Unlock()
-			return module.CheckResult{}
+			return res
 		}
 		if cr.checkedRcptsPerCheck[s] == nil {
 			cr.checkedRcptsPerCheck[s] = make(map[string]struct{})
@@ -266,6 +273,14 @@ func (cr *checkRunner) checkRcpt(ctx context.Context, checks []module.Check, rcp
 		cr.checkedRcptsLock.Unlock()
 
 		res := s.CheckRcpt(ctx, rcptTo)
+		if res.Reject {
+			cr.checkedRcptsLock.Lock()
+			if cr.rejectedRcpts[s] == nil {
+				cr.rejectedRcpts[s] = make(map[string]module.CheckResult)
+			}
+			cr.rejectedRcpts[s][rcptTo] = res
+			cr.checkedRcptsLock.Unlock()
+		}
 		return res
 	})
 
